@@ -17,7 +17,7 @@ type intrinsic func(ex *Exec, fr *Frame, st *State, site ssa.Instruction, args [
 var intrinsics = map[string]intrinsic{}
 
 var intrinsicDocs = map[string]string{
-	"io.ReadFull":                        "io.ReadFull(r,buf): err==nil => n==len(buf), buf filled with the next len(buf) stream bytes, position advances by len(buf); err!=nil => 0<=n<len(buf), position advances by n, first n cells filled; len(buf)==0 => (0,nil); err==io.EOF => n==0; writes only buf's cells",
+	"io.ReadFull":                        "io.ReadFull(r,buf): a returned error is never a buffer.MessageSizeExceeded chain; err==nil => n==len(buf), buf filled with the next len(buf) stream bytes, position advances by len(buf); err!=nil => 0<=n<len(buf), position advances by n, first n cells filled; len(buf)==0 => (0,nil); err==io.EOF => n==0; writes only buf's cells",
 	"iface buffer.BufferedReader.ReadByte": "ReadByte: err==nil => result is the next stream byte and position advances by 1; err!=nil => position unchanged",
 	"bufio.NewReaderSize":                "bufio.NewReaderSize(rd,n): fresh reader at stream position 0 of rd",
 	"(binary.bigEndian).Uint32":          "BigEndian.Uint32(b): requires len(b)>=4; big-endian value of b[0..4)",
@@ -66,6 +66,7 @@ func init() {
 		st.assume(Implies(ok, Eq(n, ln)))
 		st.assume(Implies(Not(ok), Lt(n, ln)))
 		st.assume(Implies(Eq(ln, Int(0)), ok))
+		transportErr(st, err)
 		eof := ex.loadGlobal(st, "io.EOF", errorType)
 		st.assume(Implies(And(Eq(err.L[0], eof.L[0]), Eq(err.L[1], eof.L[1])), Eq(n, Int(0))))
 		lo := buf.Off()
@@ -83,6 +84,7 @@ func init() {
 		b := ex.freshVar("rb.b", SInt)
 		st.assume(InRange(b, 8, false))
 		st.assume(Implies(ok, Eq(b, UF("stream", SInt, id, pos))))
+		transportErr(st, err)
 		setBufGhost(st, "pos", id, Ite(ok, Add(pos, Int(1)), pos))
 		return Value{T: resT, L: []*Term{b, err.L[0], err.L[1]}}
 	}
@@ -263,6 +265,12 @@ func init() {
 	}
 	intrinsics["fmt.Errorf"] = fmtLike(true)
 	intrinsics["fmt.Sprintf"] = fmtLike(false)
+}
+
+// transportErr: an error returned by the transport is not a MessageSizeExceeded chain
+// (that type is only constructed by buffer.NewMessageSizeExceeded).
+func transportErr(st *State, err Value) {
+	st.assume(Not(UF("spec.isExceeded", SBool, err.L[0], err.L[1])))
 }
 
 func fmtVerbs(f string) []byte {
